@@ -15,6 +15,10 @@ type fastcopier interface {
 
 // Repeat ...
 func (e StdEng) Repeat(t Tensor, axis int, repeats ...int) (Tensor, error) {
+	// the repeat kernels copy blocks of raw storage: a view or lazily transposed operand is materialized first
+	if v, ok := t.(View); ok && v.IsMaterializable() {
+		t = v.Materialize()
+	}
 	switch tt := t.(type) {
 	case DenseTensor:
 		newShape, newRepeats, newAxis, size, err := e.denseRepeatCheck(t, axis, repeats)
@@ -30,6 +34,10 @@ func (e StdEng) Repeat(t Tensor, axis int, repeats ...int) (Tensor, error) {
 
 // RepeatReuse is like Repeat, but with a provided reuse Tensor. The reuseTensor must be of the same type as the input t.
 func (e StdEng) RepeatReuse(t Tensor, reuse Tensor, axis int, repeats ...int) (Tensor, error) {
+	// the repeat kernels copy blocks of raw storage: a view or lazily transposed operand is materialized first
+	if v, ok := t.(View); ok && v.IsMaterializable() {
+		t = v.Materialize()
+	}
 	switch tt := t.(type) {
 	case DenseTensor:
 		newShape, newRepeats, newAxis, size, err := e.denseRepeatCheck(t, axis, repeats)
@@ -75,13 +83,16 @@ func (StdEng) denseRepeat(t, reuse DenseTensor, newShape Shape, axis, size int, 
 	}
 
 	var stride, newStride int
-	if newShape.IsVector() || t.IsVector() {
+	// when the result has the operand's rank the block sizes are simply the strides of the axis (a (1,n) row vector
+	// repeated along axis 0 moves whole rows); otherwise (flattening repeats, vector extensions) single elements are moved
+	sameRank := len(newShape) == t.Dims() && axis < len(t.ostrides()) && axis < len(d.ostrides())
+	if !sameRank && (newShape.IsVector() || t.IsVector()) {
 		stride = 1 // special case because CalcStrides() will return []int{1} as the strides for a vector
 	} else {
 		stride = t.ostrides()[axis]
 	}
 
-	if newShape.IsVector() {
+	if !sameRank && newShape.IsVector() {
 		newStride = 1
 	} else {
 		newStride = d.ostrides()[axis]
@@ -234,6 +245,20 @@ func (e StdEng) Concat(t Tensor, axis int, others ...Tensor) (retVal Tensor, err
 		var denses []DenseTensor
 		if denses, err = tensorsToDenseTensors(others); err != nil {
 			return nil, errors.Wrap(err, "Concat failed")
+		}
+		// the assignment of each operand into its slot of the result works on raw strides (and reshapes vectors):
+		// operands that are views or lazily transposed are read through a contiguous copy, the caller's tensors stay as they are
+		if v, ok := t.(View); ok && v.IsMaterializable() {
+			if m, ok := v.Materialize().(DenseTensor); ok {
+				tt = m
+			}
+		}
+		for i, d := range denses {
+			if v, ok := d.(View); ok && v.IsMaterializable() {
+				if m, ok := v.Materialize().(DenseTensor); ok {
+					denses[i] = m
+				}
+			}
 		}
 		return e.denseConcat(tt, axis, denses)
 	default:
